@@ -528,3 +528,97 @@ Example C04_sibling_shortcuts_nonvacuous :
   kids (snd (step w (OShort 0 2 SAppendSibling dD None None))) = [(1, Some [120%Z]); (2, Some [121%Z]); (4, Some [121%Z]); (3, Some [99; 104; 105; 108; 100]%Z)] /\
   kids (snd (step w (OShort 0 3 SAppendSibling dD None None))) = [(1, Some [120%Z]); (2, Some [121%Z]); (3, Some [99; 104; 105; 108; 100]%Z); (4, Some [99; 104; 105; 108; 100]%Z)].
 Proof. vm_compute. repeat split. Qed.
+
+(* ====================================================================================== *)
+(* Audit C04 F3/F4 (top-15 item 10).
+   (a) [C04_sort_sorted] is stated with [kle], which holds vacuously when a key is None (the key callback raised).
+       Restated on the keys themselves: a successful sort compared only DEFINED keys, and the resulting child list
+       is ascending (descending with reverse=True) in those keys.
+   (b) fuel: [sort_deep] recurses on fuel and reports exhaustion as failure; with the fuel [sort_list] passes
+       (S (size_f ch) > size of every child) it never runs out: failure = some key undefined.
+   (c) progress: a call the library documents as valid answers Ok ([valid_op], decidable; Mut/Progress.v lists what
+       "valid" means per operation and which operations are not covered). *)
+From NT Require Import SortFacts Progress.
+
+Theorem C04_sort_sorted_on_keys : forall k l, keys_ok k l = true ->
+  map (fun t => key_of k (rid t)) (py_sort k false l) = map Some (keys_of_list k (py_sort k false l)) /\
+  Sorted (fun a b => text_leb a b = true) (keys_of_list k (py_sort k false l)) /\
+  map (fun t => key_of k (rid t)) (py_sort k true l) = map Some (keys_of_list k (py_sort k true l)) /\
+  Sorted (fun a b => text_leb b a = true) (keys_of_list k (py_sort k true l)).
+Proof. exact py_sort_sorted_keys. Qed.
+Print Assumptions C04_sort_sorted_on_keys.
+
+Theorem C04_sort_ok_keys_defined : forall w ti p k rv r w',
+  step w (OSort ti p k rv false) = (Ok r, w') ->
+  exists t t' pq ch,
+    get_tree w ti = Some t /\ get_tree w' ti = Some t' /\
+    parent_path p (forest_of t) = Some pq /\ get_ch pq (forest_of t) = Some ch /\
+    get_ch pq (forest_of t') = Some (py_sort k rv ch) /\ Permutation (py_sort k rv ch) ch /\
+    (2 <= length ch ->
+     keys_ok k ch = true /\
+     map (fun x => key_of k (rid x)) (py_sort k rv ch) = map Some (keys_of_list k (py_sort k rv ch)) /\
+     Sorted (fun a b => if rv then text_leb b a = true else text_leb a b = true) (keys_of_list k (py_sort k rv ch))).
+Proof. exact sort_flat_sorted_keys. Qed.
+Print Assumptions C04_sort_ok_keys_defined.
+
+(* whatever the mode: when the sort did not fail and there was something to compare, the compared keys were defined *)
+Theorem C04_sort_list_ok_keys : forall k rv deep ch ch', sort_list k rv deep ch = (ch', false) ->
+  ch = [] \/ (length ch = 1 /\ deep = false) \/ keys_ok k ch = true.
+Proof. exact sort_list_ok_keys. Qed.
+Print Assumptions C04_sort_list_ok_keys.
+
+Theorem C04_sort_deep_fuel_suffices : forall k rv fuel t, size t < fuel -> deep_keys_ok k t = true ->
+  snd (sort_deep fuel k rv t false) = false.
+Proof. exact sort_deep_progress. Qed.
+Print Assumptions C04_sort_deep_fuel_suffices.
+
+Theorem C04_sort_progress : forall w ti p k rv deep, valid_sort w ti p k deep = true ->
+  fst (step w (OSort ti p k rv deep)) = Ok [].
+Proof. exact sort_progress. Qed.
+Print Assumptions C04_sort_progress.
+
+Theorem C04_progress : forall w o, valid_op w o = true -> exists r, fst (step w o) = Ok r.
+Proof. exact progress. Qed.
+Print Assumptions C04_progress.
+
+Theorem C04_add_progress : forall w ti p d e k b, valid_add w ti p d e b = true -> fst (step w (OAdd ti p d e k b)) = Ok [next w].
+Proof. exact add_progress. Qed.
+Print Assumptions C04_add_progress.
+Theorem C04_remove_progress : forall w ti n keep wc, valid_remove w ti n keep wc = true -> fst (step w (ORemove ti n keep wc)) = Ok [].
+Proof. exact remove_progress. Qed.
+Print Assumptions C04_remove_progress.
+Theorem C04_set_data_progress : forall w ti n d e wc, valid_set_data w ti n d e wc = true -> fst (step w (OSetData ti n d e wc)) = Ok [].
+Proof. exact set_data_progress. Qed.
+Print Assumptions C04_set_data_progress.
+
+(* valid_op is not the empty predicate: it accepts a whole history, and it rejects what the library rejects *)
+Definition dE : dat := D 4 4 15 true [101%Z].
+Example C04_progress_nonvacuous :
+  let ops := [ONewTree false None; OAdd 0 0 dA None None BNone; OAdd 0 0 dB None None BNone; OAdd 0 1 dC None None BNone;
+              OShort 0 1 SAppendSibling dD None None; OAddNode 0 2 0 3 None None BNone None;
+              OSort 0 0 [(1, Some [3%Z]); (2, Some [1%Z]); (4, Some [2%Z])] false false;
+              OSetData 0 5 None (Some (DInt 77)) (Some true); ORename 0 1 dE; OMeta 0 2 (MClear None);
+              ORemove 0 2 true false; OTreeCopy 0; ONodeCopy 0 1 true; ORemoveChildren 0 1; ODel 0 (KNode 4); OClear 0] in
+  (fix go (l : list op) (w : world) : bool :=
+     match l with [] => true | o :: l' => valid_op w o && go l' (snd (step w o)) end) ops empty_world = true /\
+  let w := run [ONewTree false None; OAdd 0 0 dA None None BNone] empty_world in
+  valid_op w (OAdd 0 0 dA None None BNone) = false /\ fst (step w (OAdd 0 0 dA None None BNone)) = Err EUnique /\
+  valid_op w (OSort 0 0 [] false false) = true /\
+  valid_op (snd (step w (OAdd 0 0 dB None None BNone))) (OSort 0 0 [(1, Some [3%Z])] false false) = false.
+Proof. vm_compute. repeat split. Qed.
+
+(* ====================================================================================== *)
+(* Audit, cross-cutting "step vs step_chk": the effect theorems above have the premise [step w o = (Ok r, w')]; the
+   correspondence evaluates the guarded [CaseMut.step_chk].  A successful guarded step is a successful step, so each
+   of them applies verbatim to what the cases run; a refused guarded step is the machine's refusal or the
+   stale-reference answer with the world untouched. *)
+From NT Require Import CaseMut CaseMutFacts.
+
+Theorem C04_step_chk_ok : forall w o r w', step_chk w o = (Ok r, w') -> step w o = (Ok r, w') /\ op_live w o = true.
+Proof. exact step_chk_ok. Qed.
+Print Assumptions C04_step_chk_ok.
+
+Theorem C04_step_chk_err : forall w o e w', step_chk w o = (Err e, w') ->
+  step w o = (Err e, w') \/ (op_live w o = false /\ e = EModel /\ w' = w).
+Proof. exact step_chk_err. Qed.
+Print Assumptions C04_step_chk_err.
